@@ -101,6 +101,7 @@ inductive IR where
   | ref (x : Name)
   | cast (a : IR) (t : HType)                       -- `Cast`, and the conversion functions `toInt32/toInt64/toFloat32/toFloat64`
   | isNA (a : IR)
+  | ascribe (a : IR) (t : HType)                    -- a function application `Apply f () T args` whose declared return type is `T`
   | un (op : UnOp) (a : IR)                         -- `ApplyUnaryPrimOp`
   | bin (op : BinOp) (a b : IR)                     -- `ApplyBinaryPrimOp`
   | cmp (op : CmpOp) (a b : IR)                     -- `ApplyComparisonOp`
@@ -212,6 +213,13 @@ def castVal (t : HType) : Val → Val
     | .float32 => .f32 n
     | .float64 => .f64 n
     | _ => .err
+  | .bool b =>
+    match t with
+    | .int32 => .i32 b.toNat
+    | .int64 => .i64 b.toNat
+    | .float32 => .f32 b.toNat
+    | .float64 => .f64 b.toNat
+    | _ => .err
   | _ => .err
 
 def isTrue : Val → Bool
@@ -284,6 +292,7 @@ def eval (ρ : Env) (A : List Env) : IR → Val
   | .na _ => .na
   | .ref x => lookup ρ x
   | .cast a t => castVal t (eval ρ A a)
+  | .ascribe a _ => eval ρ A a
   | .isNA a => match eval ρ A a with
     | .na => .bool true
     | .err => .err
@@ -368,7 +377,7 @@ def remove (x : Name) (l : List Name) : List Name := l.filter fun y => decide (y
 def aggFree : IR → Bool
   | .streamAgg .. | .aggLet .. | .aggFilter .. | .agg .. => false
   | .i32 _ | .i64 _ | .f32 _ | .f64 _ | .str _ | .bool _ | .na _ | .ref _ | .anil _ | .snil | .tnil => true
-  | .cast a _ | .isNA a | .un _ a | .arrayLen a | .toArray a | .toStream a | .getField a _ | .getTupleElement a _
+  | .cast a _ | .ascribe a _ | .isNA a | .un _ a | .arrayLen a | .toArray a | .toStream a | .getField a _ | .getTupleElement a _
   | .toSet a | .toDict a => aggFree a
   | .bin _ a b | .cmp _ a b | .let_ _ a b | .acons a b | .arrayRef a b | .streamMap _ a b | .streamFilter _ a b
   | .scons _ a b | .insertField a _ b | .tcons a b | .dictGet a b => aggFree a && aggFree b
@@ -379,7 +388,7 @@ children only; every statement that uses `fv` assumes `aggFree`) -/
 def fv : IR → List Name
   | .i32 _ | .i64 _ | .f32 _ | .f64 _ | .str _ | .bool _ | .na _ | .anil _ | .snil | .tnil => []
   | .ref x => [x]
-  | .cast a _ | .isNA a | .un _ a | .arrayLen a | .toArray a | .toStream a | .getField a _ | .getTupleElement a _
+  | .cast a _ | .ascribe a _ | .isNA a | .un _ a | .arrayLen a | .toArray a | .toStream a | .getField a _ | .getTupleElement a _
   | .toSet a | .toDict a => fv a
   | .bin _ a b | .cmp _ a b | .acons a b | .arrayRef a b | .scons _ a b | .insertField a _ b | .tcons a b | .dictGet a b =>
     fv a ++ fv b
@@ -406,6 +415,7 @@ inductive WellScoped : List Name → Option (List Name) → IR → Prop
   | na : WellScoped Γ Δ (.na t)
   | ref : x ∈ Γ → WellScoped Γ Δ (.ref x)
   | cast : WellScoped Γ Δ a → WellScoped Γ Δ (.cast a t)
+  | ascribe : WellScoped Γ Δ a → WellScoped Γ Δ (.ascribe a t)
   | isNA : WellScoped Γ Δ a → WellScoped Γ Δ (.isNA a)
   | un : WellScoped Γ Δ a → WellScoped Γ Δ (.un op a)
   | bin : WellScoped Γ Δ a → WellScoped Γ Δ b → WellScoped Γ Δ (.bin op a b)
@@ -445,7 +455,7 @@ inductive WellScoped : List Name → Option (List Name) → IR → Prop
 def scopeOk (Γ : List Name) (Δ : Option (List Name)) : IR → Bool
   | .i32 _ | .i64 _ | .f32 _ | .f64 _ | .str _ | .bool _ | .na _ | .anil _ | .snil | .tnil => true
   | .ref x => decide (x ∈ Γ)
-  | .cast a _ | .isNA a | .un _ a | .arrayLen a | .toArray a | .toStream a | .getField a _ | .getTupleElement a _
+  | .cast a _ | .ascribe a _ | .isNA a | .un _ a | .arrayLen a | .toArray a | .toStream a | .getField a _ | .getTupleElement a _
   | .toSet a | .toDict a => scopeOk Γ Δ a
   | .bin _ a b | .cmp _ a b | .acons a b | .arrayRef a b | .scons _ a b | .insertField a _ b | .tcons a b | .dictGet a b =>
     scopeOk Γ Δ a && scopeOk Γ Δ b
@@ -473,6 +483,7 @@ def subst (x : Name) (v : IR) : IR → IR
   | .i32 n => .i32 n | .i64 n => .i64 n | .f32 n => .f32 n | .f64 n => .f64 n
   | .str s => .str s | .bool b => .bool b | .na t => .na t | .anil t => .anil t | .snil => .snil | .tnil => .tnil
   | .cast a t => .cast (subst x v a) t
+  | .ascribe a t => .ascribe (subst x v a) t
   | .isNA a => .isNA (subst x v a)
   | .un op a => .un op (subst x v a)
   | .bin op a b => .bin op (subst x v a) (subst x v b)
@@ -505,7 +516,7 @@ def subst (x : Name) (v : IR) : IR → IR
 variable of `F`; and `t` has no aggregation node -/
 def substOk (x : Name) (F : List Name) : IR → Bool
   | .ref _ | .i32 _ | .i64 _ | .f32 _ | .f64 _ | .str _ | .bool _ | .na _ | .anil _ | .snil | .tnil => true
-  | .cast a _ | .isNA a | .un _ a | .arrayLen a | .toArray a | .toStream a | .getField a _ | .getTupleElement a _
+  | .cast a _ | .ascribe a _ | .isNA a | .un _ a | .arrayLen a | .toArray a | .toStream a | .getField a _ | .getTupleElement a _
   | .toSet a | .toDict a => substOk x F a
   | .bin _ a b | .cmp _ a b | .acons a b | .arrayRef a b | .scons _ a b | .insertField a _ b | .tcons a b | .dictGet a b =>
     substOk x F a && substOk x F b
@@ -529,6 +540,7 @@ def inlineCse : IR → IR
   | .i32 n => .i32 n | .i64 n => .i64 n | .f32 n => .f32 n | .f64 n => .f64 n
   | .str s => .str s | .bool b => .bool b | .na t => .na t | .anil t => .anil t | .snil => .snil | .tnil => .tnil
   | .cast a t => .cast (inlineCse a) t
+  | .ascribe a t => .ascribe (inlineCse a) t
   | .isNA a => .isNA (inlineCse a)
   | .un op a => .un op (inlineCse a)
   | .bin op a b => .bin op (inlineCse a) (inlineCse b)
@@ -560,7 +572,7 @@ and everything below an aggregation node must be free of `__cse` bindings to be 
 def cseLetFree : IR → Bool
   | .let_ x v b => !isCse x && cseLetFree v && cseLetFree b
   | .ref _ | .i32 _ | .i64 _ | .f32 _ | .f64 _ | .str _ | .bool _ | .na _ | .anil _ | .snil | .tnil => true
-  | .cast a _ | .isNA a | .un _ a | .arrayLen a | .toArray a | .toStream a | .getField a _ | .getTupleElement a _
+  | .cast a _ | .ascribe a _ | .isNA a | .un _ a | .arrayLen a | .toArray a | .toStream a | .getField a _ | .getTupleElement a _
   | .toSet a | .toDict a | .agg _ a => cseLetFree a
   | .bin _ a b | .cmp _ a b | .acons a b | .arrayRef a b | .scons _ a b | .insertField a _ b | .tcons a b | .dictGet a b
   | .streamMap _ a b | .streamFilter _ a b | .streamAgg _ a b | .aggFilter a b => cseLetFree a && cseLetFree b
@@ -572,7 +584,7 @@ def inlineOk : IR → Bool
     inlineOk v && inlineOk b &&
       (!isCse x || (aggFree (inlineCse v) && aggFree (inlineCse b) && substOk x (fv (inlineCse v)) (inlineCse b)))
   | .ref _ | .i32 _ | .i64 _ | .f32 _ | .f64 _ | .str _ | .bool _ | .na _ | .anil _ | .snil | .tnil => true
-  | .cast a _ | .isNA a | .un _ a | .arrayLen a | .toArray a | .toStream a | .getField a _ | .getTupleElement a _
+  | .cast a _ | .ascribe a _ | .isNA a | .un _ a | .arrayLen a | .toArray a | .toStream a | .getField a _ | .getTupleElement a _
   | .toSet a | .toDict a => inlineOk a
   | .bin _ a b | .cmp _ a b | .acons a b | .arrayRef a b | .scons _ a b | .insertField a _ b | .tcons a b | .dictGet a b
   | .streamMap _ a b | .streamFilter _ a b => inlineOk a && inlineOk b
@@ -592,7 +604,7 @@ def validate (rendered plain : IR) : Bool := inlineOk rendered && decide (inline
 def countRef (x : Name) : IR → Nat
   | .ref y => if y = x then 1 else 0
   | .i32 _ | .i64 _ | .f32 _ | .f64 _ | .str _ | .bool _ | .na _ | .anil _ | .snil | .tnil => 0
-  | .cast a _ | .isNA a | .un _ a | .arrayLen a | .toArray a | .toStream a | .getField a _ | .getTupleElement a _
+  | .cast a _ | .ascribe a _ | .isNA a | .un _ a | .arrayLen a | .toArray a | .toStream a | .getField a _ | .getTupleElement a _
   | .toSet a | .toDict a | .agg _ a => countRef x a
   | .bin _ a b | .cmp _ a b | .acons a b | .arrayRef a b | .scons _ a b | .insertField a _ b | .tcons a b | .dictGet a b
   | .let_ _ a b | .streamMap _ a b | .streamFilter _ a b | .streamAgg _ a b | .aggLet _ a b | .aggFilter a b =>
@@ -603,7 +615,7 @@ def countRef (x : Name) : IR → Nat
 def cseBinders : IR → List (Name × Nat)
   | .let_ x v b | .aggLet x v b => (if isCse x then [(x, countRef x b)] else []) ++ cseBinders v ++ cseBinders b
   | .ref _ | .i32 _ | .i64 _ | .f32 _ | .f64 _ | .str _ | .bool _ | .na _ | .anil _ | .snil | .tnil => []
-  | .cast a _ | .isNA a | .un _ a | .arrayLen a | .toArray a | .toStream a | .getField a _ | .getTupleElement a _
+  | .cast a _ | .ascribe a _ | .isNA a | .un _ a | .arrayLen a | .toArray a | .toStream a | .getField a _ | .getTupleElement a _
   | .toSet a | .toDict a | .agg _ a => cseBinders a
   | .bin _ a b | .cmp _ a b | .acons a b | .arrayRef a b | .scons _ a b | .insertField a _ b | .tcons a b | .dictGet a b
   | .streamMap _ a b | .streamFilter _ a b | .streamAgg _ a b | .aggFilter a b => cseBinders a ++ cseBinders b
@@ -613,7 +625,7 @@ def cseBinders : IR → List (Name × Nat)
 def refUnderIf (x : Name) : IR → Bool
   | .ite c t e => refUnderIf x c || decide (0 < countRef x t) || decide (0 < countRef x e)
   | .ref _ | .i32 _ | .i64 _ | .f32 _ | .f64 _ | .str _ | .bool _ | .na _ | .anil _ | .snil | .tnil => false
-  | .cast a _ | .isNA a | .un _ a | .arrayLen a | .toArray a | .toStream a | .getField a _ | .getTupleElement a _
+  | .cast a _ | .ascribe a _ | .isNA a | .un _ a | .arrayLen a | .toArray a | .toStream a | .getField a _ | .getTupleElement a _
   | .toSet a | .toDict a | .agg _ a => refUnderIf x a
   | .bin _ a b | .cmp _ a b | .acons a b | .arrayRef a b | .scons _ a b | .insertField a _ b | .tcons a b | .dictGet a b
   | .let_ _ a b | .streamMap _ a b | .streamFilter _ a b | .streamAgg _ a b | .aggLet _ a b | .aggFilter a b =>
@@ -625,7 +637,7 @@ branch that does not contain the binding (the engine evaluates a `Let` value eag
 def branchLocal : IR → Bool
   | .let_ x v b | .aggLet x v b => (!isCse x || !refUnderIf x b) && branchLocal v && branchLocal b
   | .ref _ | .i32 _ | .i64 _ | .f32 _ | .f64 _ | .str _ | .bool _ | .na _ | .anil _ | .snil | .tnil => true
-  | .cast a _ | .isNA a | .un _ a | .arrayLen a | .toArray a | .toStream a | .getField a _ | .getTupleElement a _
+  | .cast a _ | .ascribe a _ | .isNA a | .un _ a | .arrayLen a | .toArray a | .toStream a | .getField a _ | .getTupleElement a _
   | .toSet a | .toDict a | .agg _ a => branchLocal a
   | .bin _ a b | .cmp _ a b | .acons a b | .arrayRef a b | .scons _ a b | .insertField a _ b | .tcons a b | .dictGet a b
   | .streamMap _ a b | .streamFilter _ a b | .streamAgg _ a b | .aggFilter a b => branchLocal a && branchLocal b
